@@ -101,6 +101,10 @@ pub struct KnownFile {
 }
 
 pub fn load_known() -> KnownFile {
+    if std::env::var("VERIF_NO_KNOWN").is_ok() {
+        // developer switch used when (re)generating the known-findings file: report everything
+        return KnownFile::default();
+    }
     let p = format!("{VERIF}/known_findings.json");
     match std::fs::read_to_string(&p) {
         Ok(s) => serde_json::from_str(&s).unwrap_or_else(|e| {
